@@ -13,6 +13,7 @@ import (
 	"hash/fnv"
 	"os"
 	"path/filepath"
+	"runtime"
 	"sort"
 	"strconv"
 	"strings"
@@ -416,4 +417,19 @@ func RequireMode(t *testing.T, mode string) {
 	if Mode != mode {
 		t.Skipf("mode %s only (running %s)", mode, Mode)
 	}
+}
+
+// GoID returns the id of the calling goroutine (parsed from the runtime's stack header).
+func GoID() int64 {
+	var buf [64]byte
+	n := runtime.Stack(buf[:], false)
+	// "goroutine 123 [running]:"
+	var id int64
+	for _, ch := range buf[len("goroutine "):n] {
+		if ch < '0' || ch > '9' {
+			break
+		}
+		id = id*10 + int64(ch-'0')
+	}
+	return id
 }
